@@ -323,6 +323,114 @@ def observe_interpolatable(fam, how):
     return problems
 
 
+# ---- V: variable fonts from component chains with skipped links and sparse masters ------------------------------------------------
+def gen_chain(rng):
+    """top -> c1 -> ... -> leaf (a rectangle); any links may be skipped; one non-top link has an extra SPARSE master that is
+    clearly off the line between the two full masters.  Plus an unrelated glyph `base` used by `top`."""
+    depth = rng.randint(2, 3)
+    chain = ["top"] + [f"link{i}" for i in range(1, depth)] + ["leaf"]
+    offs = [[rng.choice([0, 100, 200]), rng.choice([0, 300, 400])] for _ in chain[:-1]]
+    skip = [g for g in chain[1:] if rng.random() < 0.7]
+    sparse_glyph = rng.choice(chain[1:])
+    return {
+        "chain": chain, "offsets": offs, "skip": skip, "sparse_glyph": sparse_glyph,
+        "leaf_h": [rng.choice([100, 150]), rng.choice([120, 200])], "sparse_h": rng.choice([300, 420]),
+        "sparse_off": [rng.choice([0, 50]), rng.choice([500, 650])], "widths": [500, 600, 550],
+    }
+
+
+def build_chain_ds(d, skip):
+    import ufoLib2
+    from fontTools.designspaceLib import AxisDescriptor, DesignSpaceDocument, SourceDescriptor
+
+    def rect(g, x0, y0, x1, y1):
+        pen = g.getPen()
+        pen.moveTo((x0, y0)); pen.lineTo((x1, y0)); pen.lineTo((x1, y1)); pen.lineTo((x0, y1)); pen.closePath()
+
+    def master(k):
+        u = ufoLib2.Font()
+        u.info.familyName, u.info.styleName, u.info.unitsPerEm = "C13V", f"M{k}", 1000
+        u.info.ascender, u.info.descender, u.info.xHeight, u.info.capHeight = 800, -200, 500, 700
+        g = u.newGlyph("base"); g.width = d["widths"][k]; g.unicodes = [0x61]; rect(g, 0, 0, 100, 100 + 40 * k)
+        for i, nm in enumerate(d["chain"]):
+            g = u.newGlyph(nm); g.width = d["widths"][k]
+            if nm == "top":
+                g.unicodes = [0x62]
+                g.getPen().addComponent("base", (1, 0, 0, 1, 0, 0))
+            if nm == "leaf":
+                rect(g, 0, 0, 100, d["leaf_h"][k])
+            else:
+                ox, oy = d["offsets"][i]
+                g.getPen().addComponent(d["chain"][i + 1], (1, 0, 0, 1, ox + 10 * k, oy))
+        u.glyphOrder = ["base"] + d["chain"]
+        return u
+
+    m0, m1 = master(0), master(1)
+    layer = m0.newLayer("Mid")
+    g = layer.newGlyph(d["sparse_glyph"]); g.width = d["widths"][2]
+    if d["sparse_glyph"] == "leaf":
+        rect(g, 0, 0, 100, d["sparse_h"])
+    else:
+        i = d["chain"].index(d["sparse_glyph"])
+        g.getPen().addComponent(d["chain"][i + 1], (1, 0, 0, 1, d["sparse_off"][0], d["sparse_off"][1]))
+    ds = DesignSpaceDocument()
+    ax = AxisDescriptor(); ax.name, ax.tag, ax.minimum, ax.default, ax.maximum = "Weight", "wght", 100, 100, 300
+    ds.addAxis(ax)
+    for nm, font, ln, loc in (("R", m0, None, 100), ("Mid", m0, "Mid", 200), ("B", m1, None, 300)):
+        sd = SourceDescriptor(); sd.name, sd.font, sd.layerName, sd.location = nm, font, ln, {"Weight": loc}
+        sd.familyName, sd.styleName = "C13V", nm
+        ds.addSource(sd)
+    if skip is not None:
+        ds.lib["public.skipExportGlyphs"] = list(skip)
+    return ds
+
+
+def _render_at(vf, name, wght):
+    from fontTools.pens.recordingPen import DecomposingRecordingPen
+
+    gs = vf.getGlyphSet(location={"wght": wght})
+    pen = DecomposingRecordingPen(gs)
+    gs[name].draw(pen)
+    out, cur = [], []
+    for op, pts in pen.value:
+        if op in ("closePath", "endPath"):
+            out.append(sorted(cur)); cur = []
+        else:
+            cur += [(p[0], p[1]) for p in pts if p is not None]
+    return sorted(out), gs[name].width
+
+
+def _close(a, b, tol=2.0):
+    if len(a) != len(b):
+        return False
+    for ca, cb in zip(a, b):
+        if len(ca) != len(cb) or any(abs(p[0] - q[0]) > tol or abs(p[1] - q[1]) > tol for p, q in zip(ca, cb)):
+            return False
+    return True
+
+
+def observe_chain(d, flavors):
+    import ufo2ft
+
+    problems = []
+    skip = set(d["skip"])
+    for flavor in flavors:
+        fn = ufo2ft.compileVariableTTF if flavor == "ttf" else ufo2ft.compileVariableCFF2
+        without = fn(build_chain_ds(d, None))
+        with_ = fn(build_chain_ds(d, d["skip"]))
+        o1, o0 = with_.getGlyphOrder(), without.getGlyphOrder()
+        if o1 != [g for g in o0 if g not in skip]:
+            problems.append((f"vf-{flavor}", "glyph order", {"with": o1, "without": o0}))
+            continue
+        for g in o1:
+            for wght in (100, 150, 200, 250, 300):
+                (c1, w1), (c0, w0) = _render_at(with_, g, wght), _render_at(without, g, wght)
+                if not _close(c1, c0) or abs(w1 - w0) > 1:
+                    problems.append((f"vf-{flavor}", f"{g} renders differently at wght={wght}", {"with": [c1, w1], "without": [c0, w0]}))
+                    break
+    return problems
+
+
 @hook("C13")
 def c13_extra(tier, seed):
     import logging
@@ -390,6 +498,23 @@ def _run(tier, seed, res):
                     break
     except Exception:
         res["checker_errors"].append("C13 observer crashed: " + traceback.format_exc()[-1200:])
+    # V
+    n_chain = 4 if tier == "quick" else 80
+    vprobs = []
+    try:
+        for k in range(n_chain):
+            d = gen_chain(rng)
+            ps = observe_chain(d, ("ttf",) if tier == "quick" or k % 4 else ("ttf", "cff2"))
+            ev += 1
+            vprobs += [(p, d) for p in ps]
+            if vprobs:
+                break
+    except Exception:
+        res["checker_errors"].append("C13 variable-font observer crashed: " + traceback.format_exc()[-1200:])
+    res["bounded"].append({"what": "observer: variable fonts from component chains with skipped links and a sparse intermediate master; every remaining glyph rendered at 5 locations with / without skipping",
+                           "bound": f"{n_chain} generated designspaces (variable TTF; CFF2 for a quarter of them in tier thorough), tolerance 2 units", "failures": len(vprobs)})
+    for (tag, what, detail), inp in vprobs[:2]:
+        res["violations"].append(_violation(f"C13.observer.{tag}", {"input": inp, "what": what, "observed": detail}))
     res["evaluations"] += ev
     res["distinct"] += ev
     res["bounded"].append({"what": "observer: compile with / without skipping, compare order, cmap, advances, flattened contours, pair kerning of remaining glyphs",
